@@ -150,6 +150,9 @@ type nframe struct {
 	// its calls like a helper; lexical is the frame the literal was written in (its free variables are named there)
 	closures map[string]*nclosure
 	lexical  *nframe
+	// a local defined once as the address of an existing variable or field (`pos := &c.pos`) is a name for it:
+	// pos.line reads c.pos.line, *pos reads c.pos
+	ptrAlias map[string]ast.Expr
 }
 
 type nclosure struct {
@@ -215,7 +218,7 @@ func (e *nenum) zeroNamedResults(fr *nframe, fd *ast.FuncDecl) {
 	}
 	for _, f := range fd.Type.Results.List {
 		for _, nm := range f.Names {
-			if num, ok := fr.multi[nm.Name]; ok && nm.Name != "_" {
+			if num, ok := fr.multi[lname(nm)]; ok && lname(nm) != "_" {
 				e.add(pev{"set", num + "=zero", fd})
 			}
 		}
@@ -372,6 +375,9 @@ func mergeWrites(p bpath) bpath {
 				if ok && last >= 0 && lastBuf == m[1] {
 					between := true
 					for _, b := range out[last+1:] {
+						if b.Kind == "set" && memWriteResRe.MatchString(b.Text) {
+							continue
+						}
 						if b.Kind != "call" || !strings.Contains(m[3], b.Text) {
 							between = false
 						}
@@ -408,7 +414,8 @@ func mergeWrites(p bpath) bpath {
 				continue
 			}
 		}
-		if ev.Kind != "call" {
+		// the results of the writes themselves (n, err := b.WriteString(x)) do not separate two writes
+		if ev.Kind != "call" && !(ev.Kind == "set" && memWriteResRe.MatchString(ev.Text)) {
 			last = -1
 		}
 		out = append(out, ev)
@@ -482,11 +489,16 @@ func selfDecided(f string) (known, val bool) {
 			return true, op == "=="
 		case (strings.HasPrefix(l, "fmt.Errorf(") || strings.HasPrefix(l, "errors.New(")) && wholeCall(l):
 			return true, op == "!="
+		case memWriteErrRe.MatchString(l) && wholeCall(l):
+			// the error of a write into a local in-memory buffer (bytes.Buffer, strings.Builder) is always nil
+			return true, op == "=="
 		}
 	}
 	return false, false
 }
 
+var memWriteErrRe = regexp.MustCompile(`^(?:nth\d+\()?(?:res1\(\$[0-9]+\.(WriteString|WriteRune)\(|\$[0-9]+\.WriteByte\()`)
+var memWriteResRe = regexp.MustCompile(`^\$[0-9]+=(?:nth\d+\()?(?:res[01]\(\$[0-9]+\.(WriteString|WriteRune)\(|\$[0-9]+\.WriteByte\()`)
 var dollarRe = regexp.MustCompile(`\$[0-9]+`)
 var opAssignRe = regexp.MustCompile(`^(\$[0-9]+)([-+*/|&])=(.*)$`)
 var loopStepRe = regexp.MustCompile(`(\$[0-9]+)(\+\+|--|[-+*/]=)`)
@@ -865,7 +877,7 @@ func declaredIn(ft *ast.FuncType, body *ast.BlockStmt) map[string]bool {
 		if fl != nil {
 			for _, f := range fl.List {
 				for _, nm := range f.Names {
-					out[nm.Name] = true
+					out[lname(nm)] = true
 				}
 			}
 		}
@@ -878,19 +890,19 @@ func declaredIn(ft *ast.FuncType, body *ast.BlockStmt) map[string]bool {
 			if x.Tok == token.DEFINE {
 				for _, l := range x.Lhs {
 					if id, ok := l.(*ast.Ident); ok {
-						out[id.Name] = true
+						out[lname(id)] = true
 					}
 				}
 			}
 		case *ast.ValueSpec:
 			for _, nm := range x.Names {
-				out[nm.Name] = true
+				out[lname(nm)] = true
 			}
 		case *ast.RangeStmt:
 			if x.Tok == token.DEFINE {
 				for _, v := range []ast.Expr{x.Key, x.Value} {
 					if id, ok := v.(*ast.Ident); ok {
-						out[id.Name] = true
+						out[lname(id)] = true
 					}
 				}
 			}
@@ -901,7 +913,10 @@ func declaredIn(ft *ast.FuncType, body *ast.BlockStmt) map[string]bool {
 }
 
 func (e *nenum) newFrameLex(fd *ast.FuncDecl, parent *nframe, subst map[string]string, lexical *nframe) *nframe {
-	fr := &nframe{fd: fd, subst: map[string]string{}, defs: map[string]ast.Expr{}, multi: map[string]string{}, parent: parent, closures: map[string]*nclosure{}, lexical: lexical}
+	if lexical == nil {
+		deshadow(fd) // (a function literal was resolved with the function it is written in)
+	}
+	fr := &nframe{fd: fd, subst: map[string]string{}, defs: map[string]ast.Expr{}, multi: map[string]string{}, parent: parent, closures: map[string]*nclosure{}, lexical: lexical, ptrAlias: map[string]ast.Expr{}}
 	var own map[string]bool
 	if lexical != nil {
 		own = declaredIn(fd.Type, fd.Body)
@@ -930,14 +945,14 @@ func (e *nenum) newFrameLex(fd *ast.FuncDecl, parent *nframe, subst map[string]s
 	if fd.Type.Params != nil {
 		for _, f := range fd.Type.Params.List {
 			for _, nm := range f.Names {
-				params[nm.Name] = true
+				params[lname(nm)] = true
 			}
 		}
 	}
 	if fd.Type.Results != nil {
 		for _, f := range fd.Type.Results.List {
 			for _, nm := range f.Names {
-				note(nm.Name, 2) // named results are never inlined
+				note(lname(nm), 2) // named results are never inlined
 			}
 		}
 	}
@@ -953,14 +968,14 @@ func (e *nenum) newFrameLex(fd *ast.FuncDecl, parent *nframe, subst map[string]s
 					case *ast.AssignStmt:
 						if y.Tok != token.DEFINE {
 							for _, l := range y.Lhs {
-								if id, ok := l.(*ast.Ident); ok && !inner[id.Name] {
-									note(id.Name, 2)
+								if id, ok := l.(*ast.Ident); ok && !inner[lname(id)] {
+									note(lname(id), 2)
 								}
 							}
 						}
 					case *ast.IncDecStmt:
-						if id, ok := y.X.(*ast.Ident); ok && !inner[id.Name] {
-							note(id.Name, 2)
+						if id, ok := y.X.(*ast.Ident); ok && !inner[lname(id)] {
+							note(lname(id), 2)
 						}
 					}
 					return true
@@ -978,47 +993,47 @@ func (e *nenum) newFrameLex(fd *ast.FuncDecl, parent *nframe, subst map[string]s
 				if !ok {
 					continue
 				}
-				if params[id.Name] {
-					note(id.Name, 2)
+				if params[lname(id)] {
+					note(lname(id), 2)
 					continue
 				}
 				if x.Tok == token.DEFINE && len(x.Lhs) == len(x.Rhs) {
-					if _, seen := fr.defs[id.Name]; !seen && count[id.Name] == 0 {
-						fr.defs[id.Name] = x.Rhs[i]
+					if _, seen := fr.defs[lname(id)]; !seen && count[lname(id)] == 0 {
+						fr.defs[lname(id)] = x.Rhs[i]
 						if lit, ok := stripParens(x.Rhs[i]).(*ast.FuncLit); ok {
-							fr.closures[id.Name] = &nclosure{decl: e.litDecl(id.Name, lit), lex: fr}
+							fr.closures[lname(id)] = &nclosure{decl: e.litDecl(lname(id), lit), lex: fr}
 						}
 					}
-					note(id.Name, 1)
+					note(lname(id), 1)
 				} else {
-					note(id.Name, 2)
+					note(lname(id), 2)
 				}
 			}
 		case *ast.ValueSpec:
 			for i, nm := range x.Names {
 				if i < len(x.Values) && len(x.Values) == len(x.Names) {
-					if count[nm.Name] == 0 {
-						fr.defs[nm.Name] = x.Values[i]
+					if count[lname(nm)] == 0 {
+						fr.defs[lname(nm)] = x.Values[i]
 					}
-					note(nm.Name, 1)
+					note(lname(nm), 1)
 				} else {
-					note(nm.Name, 2)
+					note(lname(nm), 2)
 				}
 			}
 		case *ast.RangeStmt:
 			for _, v := range []ast.Expr{x.Key, x.Value} {
 				if id, ok := v.(*ast.Ident); ok {
-					note(id.Name, 2)
+					note(lname(id), 2)
 				}
 			}
 		case *ast.IncDecStmt:
 			if id, ok := x.X.(*ast.Ident); ok {
-				note(id.Name, 2)
+				note(lname(id), 2)
 			}
 		case *ast.UnaryExpr:
 			if x.Op == token.AND {
 				if id, ok := x.X.(*ast.Ident); ok {
-					note(id.Name, 2) // address taken: not a value
+					note(lname(id), 2) // address taken: not a value
 				}
 			}
 		}
@@ -1052,7 +1067,7 @@ func (e *nenum) newFrameLex(fd *ast.FuncDecl, parent *nframe, subst map[string]s
 				break
 			}
 			if id, ok := l.(*ast.Ident); ok {
-				mutated[id.Name] = true
+				mutated[lname(id)] = true
 			}
 		}
 		switch x := n.(type) {
@@ -1074,14 +1089,14 @@ func (e *nenum) newFrameLex(fd *ast.FuncDecl, parent *nframe, subst map[string]s
 				if id, ok := sel.X.(*ast.Ident); ok {
 					switch sel.Sel.Name {
 					case "WriteString", "WriteRune", "WriteByte", "Write", "Reset", "Grow":
-						mutated[id.Name] = true
+						mutated[lname(id)] = true
 					}
 				}
 			}
 			if callName(x) == "delete" && len(x.Args) == 2 {
 				base(x.Args[0])
 				if id, ok := x.Args[0].(*ast.Ident); ok {
-					mutated[id.Name] = true
+					mutated[lname(id)] = true
 				}
 			}
 		}
@@ -1109,9 +1124,9 @@ func (e *nenum) newFrameLex(fd *ast.FuncDecl, parent *nframe, subst map[string]s
 		}
 		seen := map[string]bool{}
 		ast.Inspect(e, func(n ast.Node) bool {
-			if id, ok := n.(*ast.Ident); ok && !seen[id.Name] {
-				seen[id.Name] = true
-				condUses[id.Name]++
+			if id, ok := n.(*ast.Ident); ok && !seen[lname(id)] {
+				seen[lname(id)] = true
+				condUses[lname(id)]++
 			}
 			return true
 		})
@@ -1142,6 +1157,16 @@ func (e *nenum) newFrameLex(fd *ast.FuncDecl, parent *nframe, subst map[string]s
 	}
 	for _, name := range order {
 		if count[name] == 1 {
+			if d, ok := fr.defs[name]; ok {
+				if ue, isAddr := stripParens(d).(*ast.UnaryExpr); isAddr && ue.Op == token.AND {
+					switch stripParens(ue.X).(type) {
+					case *ast.Ident, *ast.SelectorExpr, *ast.IndexExpr:
+						fr.ptrAlias[name] = ue.X
+						delete(fr.defs, name)
+						continue
+					}
+				}
+			}
 			if d, ok := fr.defs[name]; ok && !mutated[name] && !isAlloc(d) {
 				_, isLit := stripParens(d).(*ast.BasicLit)
 				if condUses[name] < 2 || isLit {
@@ -1164,18 +1189,21 @@ func (e *nenum) renderD(fr *nframe, x ast.Expr, depth int) string {
 	case nil:
 		return ""
 	case *ast.Ident:
-		if s, ok := fr.subst[v.Name]; ok {
+		if s, ok := fr.subst[lname(v)]; ok {
 			return s
 		}
-		if d, ok := fr.defs[v.Name]; ok && depth < 6 {
+		if d, ok := fr.defs[lname(v)]; ok && depth < 6 {
 			s := e.renderD(fr, d, depth+1)
 			if _, isBin := d.(*ast.BinaryExpr); isBin {
 				s = "(" + s + ")"
 			}
 			return s
 		}
-		if s, ok := fr.multi[v.Name]; ok {
+		if s, ok := fr.multi[lname(v)]; ok {
 			return s
+		}
+		if op, isAlias := fr.ptrAlias[lname(v)]; isAlias && depth < 6 {
+			return "&" + e.renderD(fr, op, depth+1)
 		}
 		if fr.lexical != nil {
 			return e.renderD(fr.lexical, v, depth)
@@ -1184,10 +1212,15 @@ func (e *nenum) renderD(fr *nframe, x ast.Expr, depth int) string {
 		if lit, ok := e.c.consts[v.Name]; ok {
 			return lit
 		}
-		return v.Name
+		return lname(v)
 	case *ast.ParenExpr:
 		return "(" + e.renderD(fr, v.X, depth) + ")"
 	case *ast.SelectorExpr:
+		if id, ok := v.X.(*ast.Ident); ok {
+			if op, isAlias := fr.ptrAlias[lname(id)]; isAlias {
+				return e.renderD(fr, op, depth+1) + "." + v.Sel.Name
+			}
+		}
 		return e.renderD(fr, v.X, depth) + "." + v.Sel.Name
 	case *ast.IndexExpr:
 		return e.renderD(fr, v.X, depth) + "[" + e.renderD(fr, v.Index, depth) + "]"
@@ -1199,8 +1232,13 @@ func (e *nenum) renderD(fr *nframe, x ast.Expr, depth int) string {
 		}
 		return e.renderD(fr, v.X, depth) + ".(" + nospaceLit(v.Type) + ")"
 	case *ast.StarExpr:
-		if id, ok := v.X.(*ast.Ident); ok && fr.ptr[id.Name] {
+		if id, ok := v.X.(*ast.Ident); ok && fr.ptr[lname(id)] {
 			return e.renderD(fr, v.X, depth)
+		}
+		if id, ok := v.X.(*ast.Ident); ok {
+			if op, isAlias := fr.ptrAlias[lname(id)]; isAlias {
+				return e.renderD(fr, op, depth+1)
+			}
 		}
 		return "*" + e.renderD(fr, v.X, depth)
 	case *ast.UnaryExpr:
@@ -1278,7 +1316,7 @@ func (e *nenum) expandBoolLocals(fr *nframe, x ast.Expr, depth int) ast.Expr {
 						if i >= len(v.Args) || hasEffectCall(v.Args[i]) {
 							ok = false
 						} else {
-							m[nm.Name] = v.Args[i]
+							m[lname(nm)] = v.Args[i]
 						}
 						i++
 					}
@@ -1296,10 +1334,10 @@ func (e *nenum) expandBoolLocals(fr *nframe, x ast.Expr, depth int) ast.Expr {
 			}
 		}
 	case *ast.Ident:
-		if _, isSubst := fr.subst[v.Name]; isSubst {
+		if _, isSubst := fr.subst[lname(v)]; isSubst {
 			return x
 		}
-		if d, ok := fr.defs[v.Name]; ok {
+		if d, ok := fr.defs[lname(v)]; ok {
 			switch dv := stripParens(d).(type) {
 			case *ast.BinaryExpr:
 				switch dv.Op {
@@ -1424,7 +1462,7 @@ func (e *nenum) helperOf(fr *nframe, ce *ast.CallExpr) *ast.FuncDecl {
 	isClosure := false
 	switch f := ce.Fun.(type) {
 	case *ast.Ident:
-		if cl := fr.closureNamed(f.Name); cl != nil {
+		if cl := fr.closureNamed(lname(f)); cl != nil {
 			d, isClosure = cl.decl, true
 			if e.closureLex == nil {
 				e.closureLex = map[*ast.FuncDecl]*nframe{}
@@ -1437,7 +1475,7 @@ func (e *nenum) helperOf(fr *nframe, ce *ast.CallExpr) *ast.FuncDecl {
 		// a modelled library function (slices.ContainsFunc, …): expanded from its model like a helper
 		if id, ok := f.X.(*ast.Ident); ok {
 			if m := e.c.funcs[id.Name+"."+f.Sel.Name]; m != nil && libModels[id.Name+"."+f.Sel.Name] && fr.closureNamed(id.Name) == nil && fr.multi[id.Name] == "" && fr.defs[id.Name] == nil {
-				if _, isSubst := fr.subst[id.Name]; !isSubst {
+				if _, isSubst := fr.subst[lname(id)]; !isSubst {
 					d = m
 					break
 				}
@@ -1452,7 +1490,7 @@ func (e *nenum) helperOf(fr *nframe, ce *ast.CallExpr) *ast.FuncDecl {
 		}
 		if d == nil {
 			if id, ok := f.X.(*ast.Ident); ok {
-				if _, isSubst := fr.subst[id.Name]; isSubst || fr.multi[id.Name] != "" || fr.defs[id.Name] != nil {
+				if _, isSubst := fr.subst[lname(id)]; isSubst || fr.multi[lname(id)] != "" || fr.defs[lname(id)] != nil {
 					d = e.c.funcs["."+f.Sel.Name]
 				}
 			}
@@ -1547,10 +1585,10 @@ func (e *nenum) inline(fr *nframe, ce *ast.CallExpr, d *ast.FuncDecl, retTo []as
 				if ue, ok := a.(*ast.UnaryExpr); ok && ue.Op == token.AND {
 					if _, isPtr := f.Type.(*ast.StarExpr); isPtr {
 						s = e.render(fr, ue.X)
-						ptr[nm.Name] = true
+						ptr[lname(nm)] = true
 					}
 				}
-				subst[nm.Name] = s
+				subst[lname(nm)] = s
 				i++
 			}
 		}
@@ -1569,10 +1607,10 @@ func (e *nenum) inline(fr *nframe, ce *ast.CallExpr, d *ast.FuncDecl, retTo []as
 				if k < len(ce.Args) {
 					switch a := stripParens(ce.Args[k]).(type) {
 					case *ast.FuncLit:
-						nf.closures[nm.Name] = &nclosure{decl: e.litDecl(nm.Name, a), lex: fr}
+						nf.closures[lname(nm)] = &nclosure{decl: e.litDecl(lname(nm), a), lex: fr}
 					case *ast.Ident:
 						if cl := fr.closureNamed(a.Name); cl != nil {
-							nf.closures[nm.Name] = cl
+							nf.closures[lname(nm)] = cl
 						}
 					}
 				}
@@ -1586,9 +1624,9 @@ func (e *nenum) inline(fr *nframe, ce *ast.CallExpr, d *ast.FuncDecl, retTo []as
 	if d.Type.Params != nil {
 		for _, f := range d.Type.Params.List {
 			for _, nm := range f.Names {
-				if num, assigned := nf.multi[nm.Name]; assigned && !ptr[nm.Name] {
-					if a, ok := nf.subst[nm.Name]; ok {
-						delete(nf.subst, nm.Name)
+				if num, assigned := nf.multi[lname(nm)]; assigned && !ptr[lname(nm)] {
+					if a, ok := nf.subst[lname(nm)]; ok {
+						delete(nf.subst, lname(nm))
 						e.add(pev{"set", num + "=" + a, ce})
 					}
 				}
@@ -1749,7 +1787,7 @@ func substIdents(x ast.Expr, m map[string]ast.Expr) (ast.Expr, bool) {
 			}
 			fun = &ast.SelectorExpr{X: in, Sel: sel.Sel}
 		} else if id, isID := v.Fun.(*ast.Ident); isID {
-			if _, shadowed := m[id.Name]; shadowed {
+			if _, shadowed := m[lname(id)]; shadowed {
 				return nil, false
 			}
 		} else if _, isArr := v.Fun.(*ast.ArrayType); !isArr {
@@ -1790,6 +1828,60 @@ func isPredicateHelper(d *ast.FuncDecl) bool {
 	return false
 }
 
+// cutLoopAsRange: `for more := true; more; { line, rest, more = strings.Cut(rest, sep); … }` visits the pieces of rest
+// between occurrences of sep, one per iteration, like `for _, line := range strings.Split(rest, sep) { … }` (Cut
+// reports found=false exactly on the last piece). The loop is read as that range loop.
+func cutLoopAsRange(x *ast.ForStmt) *ast.RangeStmt {
+	as, ok := x.Init.(*ast.AssignStmt)
+	if !ok || as.Tok != token.DEFINE || len(as.Lhs) != 1 || len(as.Rhs) != 1 || nospaceLit(as.Rhs[0]) != "true" || x.Post != nil {
+		return nil
+	}
+	more, ok := as.Lhs[0].(*ast.Ident)
+	if !ok || x.Cond == nil || nospaceLit(x.Cond) != more.Name {
+		return nil
+	}
+	body := x.Body.List
+	// an optional `var line string` first
+	if len(body) > 0 {
+		if ds, ok := body[0].(*ast.DeclStmt); ok {
+			if gd, ok := ds.Decl.(*ast.GenDecl); ok && gd.Tok == token.VAR {
+				body = body[1:]
+			}
+		}
+	}
+	if len(body) == 0 {
+		return nil
+	}
+	cut, ok := body[0].(*ast.AssignStmt)
+	if !ok || len(cut.Lhs) != 3 || len(cut.Rhs) != 1 {
+		return nil
+	}
+	ce, ok := cut.Rhs[0].(*ast.CallExpr)
+	if !ok || callName(ce) != "strings.Cut" || len(ce.Args) != 2 {
+		return nil
+	}
+	line, ok1 := cut.Lhs[0].(*ast.Ident)
+	rest, ok2 := cut.Lhs[1].(*ast.Ident)
+	if !ok1 || !ok2 || nospaceLit(cut.Lhs[2]) != more.Name || nospaceLit(ce.Args[0]) != rest.Name {
+		return nil
+	}
+	// the rest of the body may not touch the loop state
+	for _, st := range body[1:] {
+		touched := false
+		ast.Inspect(st, func(n ast.Node) bool {
+			if id, ok := n.(*ast.Ident); ok && (id.Name == rest.Name || id.Name == more.Name) {
+				touched = true
+			}
+			return true
+		})
+		if touched {
+			return nil
+		}
+	}
+	split := &ast.CallExpr{Fun: &ast.SelectorExpr{X: ast.NewIdent("strings"), Sel: ast.NewIdent("Split")}, Args: []ast.Expr{rest, ce.Args[1]}}
+	return &ast.RangeStmt{For: x.For, Key: ast.NewIdent("_"), Value: line, Tok: token.DEFINE, X: split, Body: &ast.BlockStmt{Lbrace: x.Body.Lbrace, List: body[1:], Rbrace: x.Body.Rbrace}}
+}
+
 // hasEffectCall: the expression contains a call that is more than a built-in or a conversion.
 func hasEffectCall(x ast.Expr) bool {
 	found := false
@@ -1821,7 +1913,7 @@ func (e *nenum) shortCircuitAssign(fr *nframe, x *ast.AssignStmt) ast.Stmt {
 		return nil
 	}
 	if id, ok := x.Lhs[0].(*ast.Ident); ok {
-		if _, single := fr.defs[id.Name]; single || id.Name == "_" {
+		if _, single := fr.defs[lname(id)]; single || lname(id) == "_" {
 			return nil
 		}
 	}
@@ -1857,15 +1949,15 @@ func (e *nenum) rangeOperand(x *ast.RangeStmt) ast.Expr {
 func (e *nenum) bindRange(fr *nframe, x *ast.RangeStmt) (initSet string) {
 	tag := fmt.Sprintf("#%d", e.depth)
 	xs := e.render(fr, e.rangeOperand(x))
-	if id, ok := x.Key.(*ast.Ident); ok && id.Name != "_" {
-		fr.subst[id.Name] = tag
+	if id, ok := x.Key.(*ast.Ident); ok && lname(id) != "_" {
+		fr.subst[lname(id)] = tag
 	}
-	if id, ok := x.Value.(*ast.Ident); ok && id.Name != "_" {
+	if id, ok := x.Value.(*ast.Ident); ok && lname(id) != "_" {
 		assigned := false
 		ast.Inspect(x.Body, func(n ast.Node) bool {
 			if as, ok := n.(*ast.AssignStmt); ok {
 				for _, l := range as.Lhs {
-					if li, ok := l.(*ast.Ident); ok && li.Name == id.Name && as.Tok != token.DEFINE {
+					if li, ok := l.(*ast.Ident); ok && lname(li) == lname(id) && as.Tok != token.DEFINE {
 						assigned = true
 					}
 				}
@@ -1874,14 +1966,14 @@ func (e *nenum) bindRange(fr *nframe, x *ast.RangeStmt) (initSet string) {
 		})
 		if assigned {
 			// the loop variable is a copy that the body changes: an ordinary local starting as the element
-			delete(fr.subst, id.Name)
-			if _, ok := fr.multi[id.Name]; !ok {
+			delete(fr.subst, lname(id))
+			if _, ok := fr.multi[lname(id)]; !ok {
 				*e.counter++
-				fr.multi[id.Name] = fmt.Sprintf("$%d", *e.counter)
+				fr.multi[lname(id)] = fmt.Sprintf("$%d", *e.counter)
 			}
-			return fr.multi[id.Name] + "=" + xs + "[" + tag + "]"
+			return fr.multi[lname(id)] + "=" + xs + "[" + tag + "]"
 		}
-		fr.subst[id.Name] = xs + "[" + tag + "]"
+		fr.subst[lname(id)] = xs + "[" + tag + "]"
 	}
 	return ""
 }
@@ -1897,10 +1989,10 @@ func (e *nenum) bindFor(fr *nframe, x *ast.ForStmt) string {
 	if !ok {
 		return ""
 	}
-	fr.subst[id.Name] = tag
+	fr.subst[lname(id)] = tag
 	be, ok := x.Cond.(*ast.BinaryExpr)
 	inc, isInc := x.Post.(*ast.IncDecStmt)
-	if nospaceLit(as.Rhs[0]) == "0" && ok && be.Op == token.LSS && nospaceLit(be.X) == id.Name && isInc && inc.Tok == token.INC && nospaceLit(inc.X) == id.Name {
+	if nospaceLit(as.Rhs[0]) == "0" && ok && be.Op == token.LSS && nospaceLit(be.X) == lname(id) && isInc && inc.Tok == token.INC && nospaceLit(inc.X) == lname(id) {
 		if ce, ok := be.Y.(*ast.CallExpr); ok && callName(ce) == "len" && len(ce.Args) == 1 {
 			return e.render(fr, ce.Args[0])
 		}
@@ -1948,12 +2040,12 @@ func (e *nenum) stmt(fr *nframe, s ast.Stmt) {
 					inlinable := true
 					for _, l := range x.Lhs {
 						if id, ok := l.(*ast.Ident); ok {
-							if _, single := fr.defs[id.Name]; single {
+							if _, single := fr.defs[lname(id)]; single {
 								if len(d.Body.List) > 1 {
 									// a helper with a body of its own: its result is a value computed here, not a text to repeat
-									delete(fr.defs, id.Name)
+									delete(fr.defs, lname(id))
 									*e.counter++
-									fr.multi[id.Name] = fmt.Sprintf("$%d", *e.counter)
+									fr.multi[lname(id)] = fmt.Sprintf("$%d", *e.counter)
 								} else {
 									inlinable = false
 								}
@@ -1972,10 +2064,10 @@ func (e *nenum) stmt(fr *nframe, s ast.Stmt) {
 		}
 		for i, l := range x.Lhs {
 			if id, ok := l.(*ast.Ident); ok {
-				if id.Name == "_" {
+				if lname(id) == "_" {
 					continue
 				}
-				if _, single := fr.defs[id.Name]; single {
+				if _, single := fr.defs[lname(id)]; single {
 					continue // inlined at its uses
 				}
 			} else {
@@ -2018,7 +2110,7 @@ func (e *nenum) stmt(fr *nframe, s ast.Stmt) {
 					e.calls(fr, v)
 				}
 				for i, nm := range vs.Names {
-					if _, single := fr.defs[nm.Name]; single || nm.Name == "_" {
+					if _, single := fr.defs[lname(nm)]; single || lname(nm) == "_" {
 						continue
 					}
 					rhs := "zero"
@@ -2035,7 +2127,7 @@ func (e *nenum) stmt(fr *nframe, s ast.Stmt) {
 			var named []ast.Expr
 			for _, f := range fr.fd.Type.Results.List {
 				for _, nm := range f.Names {
-					named = append(named, ast.NewIdent(nm.Name))
+					named = append(named, ast.NewIdent(lname(nm)))
 				}
 			}
 			if len(named) > 0 {
@@ -2107,7 +2199,7 @@ func (e *nenum) stmt(fr *nframe, s ast.Stmt) {
 		// return of an inlined helper: deliver the results, then skip the rest of the helper
 		if target.retTo != nil {
 			for i, l := range target.retTo {
-				if id, ok := l.(*ast.Ident); ok && id.Name == "_" {
+				if id, ok := l.(*ast.Ident); ok && lname(id) == "_" {
 					continue
 				}
 				v := ""
@@ -2160,6 +2252,10 @@ func (e *nenum) stmt(fr *nframe, s ast.Stmt) {
 		e.depth--
 		e.add(pev{"endloop", "", x})
 	case *ast.ForStmt:
+		if rs := cutLoopAsRange(x); rs != nil {
+			e.stmt(fr, rs)
+			return
+		}
 		e.depth++
 		saved := map[string]string{}
 		for k, v := range fr.subst {
